@@ -8,11 +8,11 @@ use vstd::std_specs::cmp::*;
 pub type Word = u64;
 
 // dashu_base::Sign (base/src/sign.rs) -- transcription of the two-variant enum
-#[derive(Clone, Copy, PartialEq, Eq, Debug)]
+#[derive(Clone, Copy, PartialEq, Eq, Debug, Structural)]
 pub enum Sign { Positive, Negative }
 
 // float/src/round.rs `pub enum Rounding` -- transcription of the three-variant enum
-#[derive(Debug, Clone, Copy, PartialEq, Eq)]
+#[derive(Debug, Clone, Copy, PartialEq, Eq, Structural)]
 pub enum Rounding { NoOp, AddOne, SubOne }
 
 pub open spec fn int_cmp(a: int, b: int) -> Ordering {
